@@ -96,7 +96,8 @@ func (c *scriptConnector) Connect(r *Replica) error {
 
 // VerifC13_ReconnectResumes: the replica's own state handlers (connecting, streaming, waiting for data, fsync,
 // acknowledging, error/back-off), driven tick by tick like its replication loop does, against a scripted primary
-// whose stream delivers, stalls or is reset at symbolic points. Whatever the resets and reconnections: what the
+// whose stream delivers, stalls or is reset at symbolic points, and with one transient failure of the local apply at
+// a symbolic call. Whatever the resets, failures and reconnections: what the
 // replica has applied is always a prefix of the primary's log, in order, nothing twice; the applied sequence it
 // reports never decreases and never exceeds what it applied; every new stream asks for the entry after the last
 // one applied.
@@ -114,6 +115,9 @@ func VerifC13_ReconnectResumes() {
 	for i := 0; i < n; i++ {
 		prim.log = append(prim.log, &wal.Entry{SequenceNumber: uint64(i + 1), Type: wal.OpTypePut, Key: []byte{byte('a' + i)}, Value: []byte{byte(i)}})
 	}
+	// the local apply may fail once, at a symbolic call (0 = never): in the middle of a message it leaves the
+	// message half applied when the replica goes through its error state and reconnects
+	ap.failAt = vsym.IntRange("applyFailsAt", 0, n)
 	rep.SetConnector(&scriptConnector{c: prim})
 	backoff := rep.createBackoff()
 	var reported uint64
